@@ -1,12 +1,13 @@
 """Runner configuration of property C11 (loaded by tools/props.py; one file per property so that
 concurrent edits never collide)."""
 PROPS["C11"] = dict(
-    level_text="Theorems (Props/C11.lean) prove for every shard count, msb_ignore<64 and i64 token that the u64 implementation equals ScyllaDB's stated algorithm and is < nr_shards; for every shard and port range that the drawable/iterable ports are exactly the ports of the range congruent to the shard (each once, any pivot/index), and that None/empty is produced iff no such port exists. The model is tied to sharding.rs by a differential run (exhaustive corner sweep + boundary/random cases) with a brute-force oracle.",
+    level_text="Theorems (Props/C11.lean) prove for every shard count, msb_ignore<64 and i64 token that the u64 implementation equals ScyllaDB's stated algorithm and is < nr_shards; for every shard and port range that the drawable/iterable ports are exactly the ports of the range congruent to the shard (each once, any pivot/index), and that None/empty is produced iff no such port exists. The model is tied to sharding.rs by a differential run (exhaustive corner sweep + boundary/random cases) with a brute-force oracle. Which sharder a token-aware request is routed with after a node RESTARTS with new sharding parameters (same shard count / other ignore-msb included) is the pool's business: proved for the refiller model in Props/C12.lean (handleReady_adopts_reported_sharder) and tested end-to-end by the `rs=` histories of `e2e route` (C12).",
     level_note="Trusted: Lean kernel + {propext, Classical.choice, Quot.sound}; hand-written model Model/Sharding.lean (tie = differential harness through cfg(scylla_verif) pass-throughs); RNG choices are explicit model arguments (membership check). msb_ignore >= 64 (malformed SUPPORTED) is outside the property's domain.",
     lean_modules=["ScyllaVerif.Props.C11"],
     rule="case = (operation, shard count, msb/shard, token or port range); distinct case lines whose implementation output is not `none`/`-`/`0` count as non-trivial",
     trivial=lambda c, o: o in ("none", "-", "0"),
     trusted=[
+        "the sharder handed to shard_of is the one the node currently reports: not part of this check - see C12 (connection_pool.rs maybe_reshard; `e2e route rs=` node-restart histories against harness/src/mockcluster.rs)",
         "Model/Sharding.lean transcribes sharding.rs:121-237, 85-103, 274-308; u128 product modelled on Nat (product_fits_u128)",
         "rand::rng() index/pivot are explicit arguments of the model; correspondence for draw/iter is membership (model checks the observed output is producible by some random choice)",
     ],
